@@ -788,6 +788,20 @@ impl Harness for Tcp2 {
                 }
             }
             Ev::BlockedTick { side } => {
+                // same rule as for Tick: an application that has been told nothing more can
+                // arrive reads what it has before it goes to sleep
+                let mut changed = false;
+                let lazy = self.cfg.lazy_reader;
+                for e in self.ends.iter_mut() {
+                    if !lazy && e.stalled && !matches!(e.state(), State::Established | State::FinWait1 | State::FinWait2) {
+                        e.stalled = false;
+                        changed = true;
+                    }
+                }
+                if changed {
+                    self.settle();
+                    self.cached_deadline = self.earliest_deadline();
+                }
                 if let Some(d) = self.cached_deadline {
                     if d > self.now {
                         self.now = d;
